@@ -5,7 +5,10 @@ package oauth2
 
 import (
 	"context"
+	"errors"
 	"time"
+
+	"github.com/ory/x/errorsx"
 
 	"github.com/ory/fosite"
 )
@@ -34,6 +37,16 @@ func (h *HandleHelper) IssueAccessToken(ctx context.Context, defaultLifespan tim
 	responder.SetExpiresIn(getExpiresIn(requester, fosite.AccessToken, defaultLifespan, time.Now().UTC()))
 	responder.SetScopes(requester.GetGrantedScopes())
 	return signature, nil
+}
+
+// toServerError turns an error that is not an RFC 6749 error already (a storage failure handed through by
+// IssueAccessToken) into a server_error, so that it does not reach the client as an unrecognizable error.
+func toServerError(err error) error {
+	var rfcErr *fosite.RFC6749Error
+	if err == nil || errors.As(err, &rfcErr) {
+		return err
+	}
+	return errorsx.WithStack(fosite.ErrServerError.WithWrap(err).WithDebug(err.Error()))
 }
 
 func getExpiresIn(r fosite.Requester, key fosite.TokenType, defaultLifespan time.Duration, now time.Time) time.Duration {
